@@ -4,15 +4,50 @@ import (
 	"fmt"
 
 	"github.com/taurusgroup/multi-party-sig/pkg/party"
+	"github.com/taurusgroup/multi-party-sig/protocols/doerner"
+	"github.com/taurusgroup/multi-party-sig/verifharness/judge"
 	"github.com/taurusgroup/multi-party-sig/verifharness/protos"
 	"github.com/taurusgroup/multi-party-sig/verifharness/sim"
 )
 
+func views(res map[party.ID]interface{}) map[party.ID]*judge.KeyView {
+	out := map[party.ID]*judge.KeyView{}
+	for id, r := range res {
+		v, err := judge.View(r)
+		if err != nil {
+			panic(err)
+		}
+		if v.ID == "" {
+			v.ID = id
+		}
+		out[id] = v
+	}
+	return out
+}
+
 func main() {
-	ids := []party.ID{"a", "b", "c"}
-	r1, _ := protos.Run(protos.FrostKeygen(ids, 1, false, nil), protos.RunOpts{Seed: "s"})
-	r2, _ := protos.Run(protos.FrostKeygen(ids, 1, false, nil), protos.RunOpts{Seed: "s", Sched: sim.NewRng(5)})
-	a, b := protos.Canon(r1.Results["a"]), protos.Canon(r2.Results["a"])
-	fmt.Println(a)
-	fmt.Println(b)
+	protos.InstallPrimeSource("/verif/fixtures/safeprimes.json")
+	ids := []party.ID{"a", "b", "c", "d"}
+	for _, tap := range []bool{false, true} {
+		r, _ := protos.Run(protos.FrostKeygen(ids, 2, tap, nil), protos.RunOpts{Seed: "s", Sched: sim.NewRng(5)})
+		vs := views(r.Results)
+		fmt.Println("frost keygen problems:", judge.ConsistentSharing(vs, 0))
+		s, _ := protos.Run(protos.FrostSign(r.Results, []party.ID{"a", "c", "d"}, []byte("hello"), nil), protos.RunOpts{Seed: "s"})
+		ok, why := judge.SigValid(vs["a"].Group, vs["a"].GroupX, []byte("hello"), s.Results["a"])
+		fmt.Println("sig", ok, why)
+		ok, why = judge.SigValid(vs["a"].Group, vs["a"].GroupX, []byte("hellp"), s.Results["a"])
+		fmt.Println("sig wrong msg", ok, why)
+	}
+	rd, _ := protos.Run(protos.DoernerKeygen("a", "b", nil), protos.RunOpts{Seed: "s"})
+	vs := views(rd.Results)
+	fmt.Println("doerner problems:", judge.ConsistentSharing(vs, 0))
+	rs, _ := protos.Run(protos.DoernerSign("a", "b", rd.Results["a"].(*doerner.ConfigReceiver), rd.Results["b"].(*doerner.ConfigSender), []byte("hello"), nil), protos.RunOpts{Seed: "s"})
+	fmt.Println(rs.Describe())
+	ok, why := judge.SigValid(vs["a"].Group, nil, []byte("hello"), rs.Results["a"])
+	fmt.Println("doerner sig", ok, why, fmt.Sprintf("%T %T", rs.Results["a"], rs.Results["b"]))
+	cfgs := protos.DealCmp(ids[:3], 1, "x")
+	fmt.Println("cmp dealt problems:", judge.ConsistentSharing(views(cfgs), 0))
+	cs, _ := protos.Run(protos.CmpSign(cfgs, []party.ID{"a", "c"}, []byte("hello"), nil), protos.RunOpts{Seed: "s"})
+	ok, why = judge.SigValid(views(cfgs)["a"].Group, nil, []byte("hello"), cs.Results["a"])
+	fmt.Println("cmp sig", ok, why)
 }
